@@ -97,23 +97,24 @@ Proof. exact sis_flag_rel_read. Qed.
    `for u in initial_infecteds` = the caller's order, an input (witnesses below) *)
 Definition brief (s : HashIter.iter_site) := (HashIter.site_fn s, HashIter.site_kind s, HashIter.site_text s).
 Open Scope string_scope.
+(* places are (function, kind of order): the text of the iterated expression is not pinned -- a renamed local must not break this file *)
 Theorem C18s_loops_reachable_from_the_SIS_simulators :
-  map brief (HashIter.sites_of_entry Gen.HashIter.hash_iter_table "fast_SIS") =
-    [("_transform_to_node_history_", HashIter.DictOrder, "infection_times.items()");
-     ("_transform_to_node_history_", HashIter.DictOrder, "recovery_times.items()");
-     ("_transform_to_node_history_", HashIter.DictOrder, "infection_times.items()");
-     ("_process_trans_SIS_Markov", HashIter.GraphOrder, "G.neighbors(target)");
-     ("fast_SIS", HashIter.ParamOrder, "initial_infecteds")] /\
-  map brief (HashIter.sites_of_entry Gen.HashIter.hash_iter_table "fast_nonMarkov_SIS") =
-    [("_transform_to_node_history_", HashIter.DictOrder, "infection_times.items()");
-     ("_transform_to_node_history_", HashIter.DictOrder, "recovery_times.items()");
-     ("_transform_to_node_history_", HashIter.DictOrder, "infection_times.items()");
-     ("_find_trans_and_rec_delays_SIS_", HashIter.ParamOrder, "neighbors");
-     ("_process_trans_SIS_nonMarkov_", HashIter.GraphOrder, "G.neighbors(target)");
-     ("_process_trans_SIS_nonMarkov_", HashIter.OtherOrder, "trans_delays[v]");
-     ("_process_trans_SIS_nonMarkov_", HashIter.ListOrder, "trans_times");
-     ("_process_trans_SIS_nonMarkov_", HashIter.ParamOrder, "future_transmissions");
-     ("fast_nonMarkov_SIS", HashIter.ParamOrder, "initial_infecteds")] /\
+  map (fun x => fst (brief x)) (HashIter.sites_of_entry Gen.HashIter.hash_iter_table "fast_SIS") =
+    [("_transform_to_node_history_", HashIter.DictOrder);
+     ("_transform_to_node_history_", HashIter.DictOrder);
+     ("_transform_to_node_history_", HashIter.DictOrder);
+     ("_process_trans_SIS_Markov", HashIter.GraphOrder);
+     ("fast_SIS", HashIter.ParamOrder)] /\
+  map (fun x => fst (brief x)) (HashIter.sites_of_entry Gen.HashIter.hash_iter_table "fast_nonMarkov_SIS") =
+    [("_transform_to_node_history_", HashIter.DictOrder);
+     ("_transform_to_node_history_", HashIter.DictOrder);
+     ("_transform_to_node_history_", HashIter.DictOrder);
+     ("_find_trans_and_rec_delays_SIS_", HashIter.ParamOrder);
+     ("_process_trans_SIS_nonMarkov_", HashIter.GraphOrder);
+     ("_process_trans_SIS_nonMarkov_", HashIter.OtherOrder);
+     ("_process_trans_SIS_nonMarkov_", HashIter.ListOrder);
+     ("_process_trans_SIS_nonMarkov_", HashIter.ParamOrder);
+     ("fast_nonMarkov_SIS", HashIter.ParamOrder)] /\
   HashIter.has_set_iter_in Gen.HashIter.hash_iter_table "fast_SIS" = false /\
   HashIter.has_set_iter_in Gen.HashIter.hash_iter_table "fast_nonMarkov_SIS" = false.
 Proof. vm_compute. repeat split; reflexivity. Qed.
